@@ -121,14 +121,29 @@ def run_matcher(seed, n):
     from py_stringsimjoin.matcher.apply_matcher import apply_matcher
     rng = random.Random(seed + 11)
     groups, info = [], []
-    dist = {'sim': {}, 'op': {}, 'njobs': {}, 'cache_path': {}, 'tokenizer': {}}
+    dist = {'sim': {}, 'op': {}, 'njobs': {}, 'cache_path': {}, 'tokenizer': {}, 'selfjoin': {}}
     exceptions = []
     for i in range(n):
         simname, simf, wants_tok = make_sim(rng)
         kind, tok = T.make_tokenizer(rng, 'qgram2' if simname == 'lev' else None)
         use_tok = wants_tok
         L, R, names = T.gen_tables(rng, kind, max_rows=5)
-        cand, cl, cr = gen_candset(rng, L, R, names, big=rng.choice([None, True, False]))
+        selfjoin = False
+        if rng.random() < 0.15 and len(L) > 1:
+            # self-join: ONE table object on both sides, the same match column, but a different
+            # (second) key column on the right -- a permutation of the left key's values, or
+            # disjoint values: any confusion of the two key spaces picks another row or raises
+            L = L.copy()
+            keys = L[names[0]].tolist()
+            perm = keys[:]
+            rng.shuffle(perm)
+            if rng.random() < 0.3:
+                perm = ['zz%d' % j for j in range(len(keys))]
+            L['code2'] = pd.Series(perm, index=L.index, dtype=object if isinstance(perm[0], str) else None)
+            R = L
+            names = (names[0], names[1], 'code2', names[1])
+            selfjoin = True
+        cand, cl, cr = gen_candset(rng, L, R, names, big=rng.choice([None, True, True, False]) if selfjoin else rng.choice([None, True, False]))
         op = rng.choice(['>=', '>', '<=', '<', '=', '!='])
         t = rng.choice([0, 1, 2, 0.5, 0.25, 1.0, 0.3333, rng.random()])
         am = rng.random() < 0.5
@@ -164,7 +179,7 @@ def run_matcher(seed, n):
             if tk is not None:
                 x, y = tk.tokenize(x), tk.tokenize(y)
             simtab[(va, vb)] = simf(x, y)
-        for k, v in (('sim', simname), ('op', op), ('njobs', nj), ('cache_path', cached),
+        for k, v in (('sim', simname), ('op', op), ('njobs', nj), ('cache_path', cached), ('selfjoin', selfjoin),
                      ('tokenizer', kind if tk is not None else 'None')):
             dist[k][str(v)] = dist[k].get(str(v), 0) + 1
         b = lambda x: 'true' if x else 'false'
